@@ -151,6 +151,11 @@ impl ProbeCore {
     }
 
     fn size_hint(&self) -> (usize, Option<usize>) {
+        // a read of the wrapped iterator by a virtual thread is an observable use of it (the crate only
+        // calls `size_hint` while constructing the concurrent iterator, on the owner's thread)
+        if rt::tid() != NO_TID && !rt::silent() {
+            tlog!("src hint");
+        }
         match self.hint {
             Hint::Exact => {
                 let k = self
